@@ -245,3 +245,35 @@ func init() {
 	mut("C14", "signature cursor advances by two", true, "cursor", Edit{p, "\t\t\tsig, sigs = sigs[0], sigs[1:]\n", "\t\t\tsig, sigs = sigs[0], sigs[min(2, len(sigs)):]\n"})
 	mut("C14", "empty threshold accepted without consulting N", true, "threshold", Edit{p, "\t\tcase PolicyTypeThreshold:\n", "\t\tcase PolicyTypeThreshold:\n\t\t\tif len(p.Of) == 0 {\n\t\t\t\treturn nil\n\t\t\t}\n"})
 }
+
+func init() {
+	// ---- C10 ----
+	e := "types/encoding.go"
+	v := "consensus/validation.go"
+	mut("C10", "DecodeSlice: remaining-bytes guard dropped", true, "slice-prefix-vs-remaining:DecodeSlice",
+		Edit{e, "\tn := d.ReadUint64()\n\tif n > uint64(d.lr.N) {\n\t\td.SetErr(fmt.Errorf(\"encoded object contains invalid length prefix (%v elems > %v bytes left in stream)\", n, d.lr.N))\n\t\treturn\n\t}\n\tvar items []T\n\tfor range n {", "\tn := d.ReadUint64()\n\tvar items []T\n\tfor range n {"})
+	mut("C10", "ReadBytes: guard dropped", true, "bytes-prefix-vs-remaining",
+		Edit{e, "\tn := d.ReadUint64()\n\tif n > uint64(d.lr.N) {\n\t\td.SetErr(fmt.Errorf(\"encoded object contains invalid length prefix (%v elems > %v bytes left in stream)\", n, d.lr.N))\n\t\treturn nil\n\t}\n\tb := make([]byte, n)", "\tn := d.ReadUint64()\n\tb := make([]byte, n)"})
+	mut("C10", "policy decoder: depth test dropped", true, "policy-depth",
+		Edit{e, "\t\tif depth > maxPolicyDepth {\n\t\t\treturn SpendPolicy{}, fmt.Errorf(\"policy exceeds maximum nesting depth of %d\", maxPolicyDepth)\n\t\t}\n", "\t\t_ = depth\n"})
+	mut("C10", "outline decoder: kinds[i] > 2 test dropped", true, "outline",
+		Edit{"gateway/encoding.go", "\t\tif kinds[i] > 2 {\n\t\t\td.SetErr(fmt.Errorf(\"invalid outline transaction type (%d)\", kinds[i]))\n\t\t\treturn\n\t\t}\n", ""})
+	mut("C10", "v1 signatures: PublicKeyIndex bound dropped", true, "sink-discharged|consensus.validateSignatures",
+		Edit{v, "\t\t} else if sig.PublicKeyIndex >= uint64(len(e.keys)) {\n\t\t\treturn fmt.Errorf(\"signature %v points to a nonexistent public key\", i)\n", ""})
+	mut("C10", "v2 overflow pre-check skips contract payouts of revisions", true, "checked-arith",
+		Edit{v, "\tfor _, fc := range txn.FileContractRevisions {\n\t\taddContract(fc.Revision)\n\t}\n", ""})
+	mut("C10", "multiproof decoder: leaf index may equal the leaf count", true, "multiproof-leaf-index",
+		Edit{"types/multiproof.go", "\t\tif l.LeafIndex >= numLeaves {", "\t\tif l.LeafIndex > numLeaves {"})
+	mut("C10", "V1Currency decoder: length bound off by one", true, "V1Currency",
+		Edit{e, "\tif n > 16 {\n\t\td.SetErr(fmt.Errorf(\"Currency too large: %v bytes\", n))", "\tif n > 17 {\n\t\td.SetErr(fmt.Errorf(\"Currency too large: %v bytes\", n))"})
+	mut("C10", "ephemeral siacoin parent: shared index not bounded", true, "ephemeral-index-bound:siacoin",
+		Edit{v, "\tif !ok || j >= len(ms.sces) || !ms.sces[j].Created {\n\t\treturn fmt.Errorf(\"spends nonexistent ephemeral output %v\", sci.Parent.ID)", "\tif !ok || !ms.sces[j].Created {\n\t\treturn fmt.Errorf(\"spends nonexistent ephemeral output %v\", sci.Parent.ID)"})
+	mut("C10", "covered fields no longer validated", true, "PartialSigHash",
+		Edit{v, "\t\t} else if !validCoveredFields(txn, sig.CoveredFields) {\n\t\t\treturn fmt.Errorf(\"signature %v covers nonexistent fields\", i)\n", ""})
+	mut("C10", "MidState lookup drops the ID comparison", true, "lookup-id-matches:siacoinElement",
+		Edit{"consensus/state.go", "if i, ok := ms.elements[id]; ok && i < len(ms.sces) && ms.sces[i].SiacoinElement.ID == id {", "if i, ok := ms.elements[id]; ok && i < len(ms.sces) {"})
+	mut("C10", "Account.UnmarshalText length guard dropped", true, "Account",
+		Edit{"rhp/v4/rhp.go", "\tif hex.DecodedLen(len(b)) > len(a) {\n\t\treturn fmt.Errorf(\"decoding ed25519:<hex> failed: input too long\")\n\t}\n", ""})
+	mut("C10", "(benign) V1Currency bound written as >= 17", false, "",
+		Edit{e, "\tif n > 16 {\n\t\td.SetErr(fmt.Errorf(\"Currency too large: %v bytes\", n))", "\tif n >= 17 {\n\t\td.SetErr(fmt.Errorf(\"Currency too large: %v bytes\", n))"})
+}
